@@ -9,6 +9,7 @@ ul k_trim(char* b, ul n, uint32_t which, char* out, ul cap); ul k_case(char* b, 
 ul k_removeBlocks(char* b, ul n, uint8_t open, uint8_t close, char* out, ul cap); ul k_removeChar(char* b, ul n, uint8_t c, char* out, ul cap); ul k_split(char* b, ul n, ul chunk, char* lens, ul cap);
 ul k_count(char* b, ul n, char* p, ul np); uint32_t k_startsEndsHas(char* b, ul n, char* p, ul np, uint32_t which); ul k_path(char* b, ul n, uint8_t sep, uint32_t which, char* out, ul cap);
 uint32_t k_toInt(char* b, ul n, uint8_t sci, char* ok); double k_toDouble(char* b, ul n, uint8_t dec, uint8_t sci, char* ok);
+uint32_t k_singleKeyval(char* b, ul n, uint8_t split, char* key, char* nkey, char* val, char* nval, ul cap);
 ul nondet_u64(void); uint8_t nondet_u8(void); uint32_t nondet_u32(void);
 #ifndef LMAX
 #define LMAX 4
@@ -72,3 +73,10 @@ void harness_search(void) { __ir2c_init_globals(); BUF char pat[3]; pat[0] = non
   if (w == 0 && np <= n) { int eq = 1; for (ul i = 0; i < np; i++) if (buf[i] != pat[i]) eq = 0; assert(r == (uint32_t)eq); } if (w == 1 && np <= n) { int eq = 1; for (ul i = 0; i < np; i++) if (buf[n - np + i] != pat[i]) eq = 0; assert(r == (uint32_t)eq); }
   if (np > n) assert(r == 0); END }
 void harness_path(void) { __ir2c_init_globals(); BUF char out[CAP]; uint8_t sep = nondet_u8(); uint32_t w = WHICH; ul m = k_path(buf, n, sep, w, out, CAP); NOFOREIGN assert(m == (ul)-1 || m <= n); END }
+
+// key = value splitting: accepted iff the separator occurs; key is the text before its first occurrence, value the text after it (so key + separator + value gives the input back)
+void harness_keyval(void) { __ir2c_init_globals(); BUF char key[CAP], val[CAP]; ul nk = 0, nv = 0; uint8_t sp = nondet_u8();
+  uint32_t ok = k_singleKeyval(buf, n, sp, key, (char*)&nk, val, (char*)&nv, CAP); NOFOREIGN
+  ul first = n; for (ul i = 0; i < n; i++) if (first == n && (uint8_t)buf[i] == sp) first = i;
+  assert((ok != 0) == (first < n));
+  if (ok) { assert(nk == first && nv == n - first - 1); for (ul i = 0; i < nk; i++) assert(key[i] == buf[i]); for (ul i = 0; i < nv; i++) assert(val[i] == buf[first + 1 + i]); } END }
